@@ -309,8 +309,9 @@ def configs(ctx: Ctx) -> list[dict[str, Any]]:
             _cfg([W], 1, ticks=1, adv=OVER, on_tick=True, env_cost=1),
             _cfg([W], 1, ticks=1, adv=UNDER, on_tick=True, env_cost=1),
             _cfg([C], 1, ticks=1, adv=OVER, on_tick=True, env_cost=1),
-            _cfg([W, W], 1, ticks=1, adv=OVER, on_tick=True),
+            _cfg([W, W], 1, ticks=1, adv=OVER, on_tick=True, env_cost=1),
             _cfg([W], 2, ticks=1, adv=OVER, env_cost=1),
+            _cfg([W], 1, ticks=2, adv=OVER, on_tick=True),
             _cfg([W], 1, delete=True, ticks=1, adv=OVER, on_tick=True, env_cost=1),
             # inline expiry inside get(): clock event free, one preemption
             _cfg([W, W], 1, adv=OVER), _cfg([W], 1, delete=True, adv=OVER),
